@@ -11,17 +11,19 @@ SWALLOW an I/O error of the file object and go on as if the probe had found noth
                seek(0, 2) ; [no items: return] write(header) ; write(items) ; write(footer) )
     delete = convert_error( verify_fileobj ; _APEv2Data(fileobj) ; [tag: delete_bytes(end - start, start)] )
 
-    _APEv2Data: __find_metadata   seek(-32,2) read(8) [seek(-8,1) tell]
-                                  | get_size seek(-128,2) read(3) [seek(-35,1) read(8) [seek(-8,1) tell]
-                                      | seek(15,1) read(9) seek(-15,1) read(6) seek(-38-n,1) read(8) [seek(-8,1) tell]]
+    _seek_back(k) = tell ; [tell < k: raise IOError] seek(-k,1)
+    _APEv2Data: __find_metadata   seek(0,2) _seek_back(32) read(8) [seek(-8,1) tell]
+                                  | get_size seek(-128,2) read(3) [_seek_back(35) read(8) [seek(-8,1) tell]
+                                      | seek(15,1) read(9) seek(-15,1) read(6) _seek_back(38+n) read(8) [seek(-8,1) tell]]
                                   | seek(0) read(8)
                 __fill_missing    seek(metadata+8) read(16) [header at 0: get_size seek(end-32) read(8)]
                                   [a footer and size < 32: raise error — `size - 32` is never negative below]
-                __fix_brokenness  seek(start) (seek(-24,1) read(8) [seek(-8,1) tell])*
+                __fix_brokenness  seek(start) (_seek_back(24) read(8) [seek(-8,1) tell])*
                                   seek(data) read(size)
 
 The file object is BytesIO-like (Model/FileM.lean): a seek before the start of the file positions at 0
-and does not raise.  The pure parts (`int6`, the magic strings, `Loc`) are those of
+and does not raise — the code does not rely on that any more: where a backward seek may end in front of the file it
+asks `tell()` first and raises the IOError itself (`_seek_back`, `seekBack` below).  The pure parts (`int6`, the magic strings, `Loc`) are those of
 Model/Container/ApeFile.lean; `locate` there is what `locateM` computes when nothing fails
 (`locateM_q`, Proofs/Container/ApeFileCap.lean).
 -/
@@ -39,6 +41,12 @@ def fseekFromEnd (off : Nat) : FileM Unit := do
 
 /-- `seek(k, 1)` (BytesIO: clamped at 0) -/
 def fseekRel (k : Int) : FileM Unit := fun e s => fseek ((s.pos : Int) + k).toNat e s
+
+/-- `_seek_back(fileobj, offset)`: `tell()`, IOError when that is less than `offset`, else `seek(-offset, 1)` (a
+non-positive `offset` — a negative Lyrics3v2 size — never raises and seeks forward) -/
+def seekBack (off : Int) : FileM Unit := do
+  let p ← ftell
+  if (p : Int) < off then raise .io else fseekRel (-off)
 
 /-- `truncate()`: at the current position -/
 def ftruncateHere : FileM Unit := fun e s => ftruncate s.pos e s
@@ -93,7 +101,7 @@ def viaV1M : FileM (Option Nat) := do
     let t ← fread 3
     if t != tagMagic then pure none
     else do
-      fseekRel (-35)
+      seekBack 35
       let a ← readIsApe
       if a then do
         let p ← backTell
@@ -108,7 +116,7 @@ def viaV1M : FileM (Option Nat) := do
           match pyInt d with
           | none => raise .io                              -- ValueError of int(): raise IOError
           | some off => do
-            fseekRel (-32 - off - 6)
+            seekBack (32 + off + 6)
             let b ← readIsApe
             if b then do
               let p ← backTell
@@ -116,8 +124,9 @@ def viaV1M : FileM (Option Nat) := do
             else pure none
 
 def findMetadataM : FileM Meta := do
-  -- try: fileobj.seek(-32, 2)  except IOError: fileobj.seek(0, 2); return
-  let sought ← tryCatch (do fseekFromEnd 32; pure true) PyErr.isIO (fun _ => do fseekEnd; pure false)
+  -- fileobj.seek(0, 2); try: _seek_back(fileobj, 32)  except IOError: return
+  fseekEnd
+  let sought ← tryCatch (do seekBack 32; pure true) PyErr.isIO (fun _ => pure false)
   if !sought then pure .nothing
   else do
     let a ← readIsApe
@@ -142,8 +151,8 @@ def fixBrokenM : Nat → Nat → FileM Nat
   | fuel + 1, start =>
     if start = 0 then pure 0
     else do
-      -- try: fileobj.seek(-24, 1)  except IOError: break
-      let moved ← tryCatch (do fseekRel (-24); pure true) PyErr.isIO (fun _ => pure false)
+      -- try: _seek_back(fileobj, 24)  except IOError: break
+      let moved ← tryCatch (do seekBack 24; pure true) PyErr.isIO (fun _ => pure false)
       if !moved then pure start
       else do
         let a ← readIsApe
